@@ -70,7 +70,8 @@ def gen_material(rng, mode, prop):
     if r < 0.45:
         return {'kind': 'neohookean', 'elastic modulus': E, 'poisson ratio': nu, 'version': str(rng.choice(['adagio', 'coupled']))}
     if r < 0.55:
-        return {'kind': 'gent', 'elastic modulus': E, 'poisson ratio': nu, 'Jm parameter': float(rng.uniform(3, 30))}
+        return {'kind': 'gent', 'bulk modulus': E / (3 * (1 - 2 * nu)), 'shear modulus': E / (2 * (1 + nu)),
+                'elastic modulus': E, 'Jm parameter': float(rng.uniform(3, 30))}
     if r < 0.85:
         Y0 = float(E * 10.0 ** rng.uniform(-2.5, -1.5))
         return {'kind': 'j2', 'elastic modulus': E, 'poisson ratio': nu, 'yield strength': Y0,
@@ -118,8 +119,12 @@ def gen_program(rng, prop, tier, run_index):
             cfg.update(mode2D='plane strain', ppd=None, nblocks=1)
             cfg['mesh']['order'] = min(cfg['mesh']['order'], 2)
             cfg['mesh']['nx'], cfg['mesh']['ny'] = min(cfg['mesh']['nx'], 3), min(cfg['mesh']['ny'], 3)
-            if cfg['material']['kind'] in ('gent', 'visco1'):
+            if cfg['material']['kind'] == 'gent':
                 cfg['material'] = {'kind': 'neohookean', 'elastic modulus': 10.0, 'poisson ratio': 0.3, 'version': 'coupled'}
+            if rng.random() < 0.3:
+                # rate-dependent material: the helper products depend on the time step
+                cfg['material'] = {'kind': 'visco1', 'equilibrium bulk modulus': 10.0, 'equilibrium shear modulus': 3.0,
+                                   'non equilibrium shear modulus': float(rng.uniform(1.0, 10.0)), 'relaxation time': float(10.0 ** rng.uniform(-1, 1))}
         if cfg['mode2D'] == 'axisymmetric':
             cfg['mesh']['shift'] = [abs(cfg['mesh']['shift'][0]) + 2.0, cfg['mesh']['shift'][1]]   # keep r > 0
         n = int(rng.integers(2, 7))
@@ -204,8 +209,10 @@ def build_mesh(L, m):
 
 def material_model(L, mat):
     props = {k: v for k, v in mat.items() if k != 'kind'}
+    mod = L['mats'][mat['kind']]
+    factory = getattr(mod, 'create_material_model_functions', None) or mod.create_material_functions
     with core.quiet_stdout():
-        return L['mats'][mat['kind']].create_material_model_functions(props)
+        return factory(props)
 
 
 class Base:
@@ -377,7 +384,11 @@ class Dynamics(Base):
             UuPre, VuPre = self.dyn.predict(jnp.asarray(Un), jnp.asarray(Vn), jnp.asarray(An), dt)
         t_new = self.t + dt
         p = OBJ.Params(None, self.state, None, None, jnp.array([t_new, self.t]), UuPre)
-        tol = float(self.cfg['tol'])
+        # absolute gradient tolerance of the solve, scaled with the size of the terms in the gradient of the
+        # algorithmic energy (inertia ~ M |U - UPre| / (beta dt^2)): a fixed absolute tolerance is below the
+        # rounding of those terms for small dt
+        mscale = float(np.max(np.diag(self.M))) / (self.beta * dt * dt) * (np.max(np.abs(Un)) + dt * np.max(np.abs(Vn)) + dt * dt * np.max(np.abs(An)) + 1e-300)
+        tol = float(self.cfg['tol']) * max(1.0, mscale)
         settings = ES.get_settings(max_cg_iters=50, max_trust_iters=500 if cap is None else int(cap), min_tr_size=1e-13,
                                    tol=tol, debug_info=False)
         full = ES.get_settings(max_cg_iters=50, max_trust_iters=500, min_tr_size=1e-13, tol=tol, debug_info=False)
@@ -388,7 +399,7 @@ class Dynamics(Base):
                 resumes = 0
                 if cap is not None:
                     ctx.fault('cap')
-                    while not ok and resumes < 400:
+                    while not ok and resumes < 25:
                         Uu, ok = ES.nonlinear_equation_solve(self.obj, Uu, p, settings if resumes < 5 else full, useWarmStart=False)
                         resumes += 1
                     ctx.probe('resumes', resumes)
